@@ -88,7 +88,7 @@ static std::string ins_str(const Prog& p, const Ins& i) {
     case O_JMP: snprintf(b, sizeof b, "jmp L%d", i.lbl); return b;
     case O_JZ: case O_JNZ: case O_DECJNZ: case O_DECJG: snprintf(b, sizeof b, " %s,L%d", v(i.a).c_str(), i.lbl); return s + b;
     case O_JT: { s += " " + v(i.a) + ",{"; for (size_t k = 0; k < i.lbls.size(); k++) s += (k ? ",L" : "L") + std::to_string(i.lbls[k]); return s + "}"; }
-    case O_CALL: { s += " f" + std::to_string(i.fn) + "("; for (size_t k = 0; k < i.args.size(); k++) { s += k ? "," : ""; s += i.args[k] <= -1000 ? "#" + std::to_string(-1000 - i.args[k]) : v(i.args[k]); } return s + ")->" + v(i.a); }
+    case O_CALL: { s += " f" + std::to_string(i.fn) + "("; for (size_t k = 0; k < i.args.size(); k++) { s += k ? "," : ""; s += i.args[k] == -999 ? "#" + std::to_string((long long)i.imm) : i.args[k] <= -1000 ? "#" + std::to_string(-1000 - i.args[k]) : v(i.args[k]); } return s + ")->" + v(i.a); }
     default: break;
   }
   if (i.a >= 0) s += " " + v(i.a);
@@ -353,7 +353,8 @@ static void interp(const Prog& p, const Input& in, uint64_t mem_ptr, Outcome& ou
         CallRec r; r.fn = I.fn;
         for (size_t ai = 0; ai < I.args.size(); ai++) {
           int x = I.args[ai];
-          uint64_t val = x <= -1000 ? uint64_t(-1000 - x) : v[size_t(x)].q[0];
+          uint64_t val = x == -999 ? uint64_t(I.imm) : x <= -1000 ? uint64_t(-1000 - x) : v[size_t(x)].q[0];
+          if (I.fn == 10 && x == -999) val &= p.call10_mask[ai];   // an immediate is converted to the parameter's type
           if (I.fn == 10 && x >= 0) {   // marshalling: the value is extended according to the signedness of the SOURCE register, the callee sees the parameter's width
             // same conversion rule as for function arguments: sign extension when both the register type and the parameter type are signed
             Kind sk = p.kinds[size_t(x)]; int pt = p.call10_ptype[ai];
@@ -591,7 +592,7 @@ struct EmitX86 {
         call_targets.push_back(std::make_pair(target, I.fn));
         E(cc.invoke(Out(inv), Imm(int64_t(target)), sig));
         if (!inv) break;
-        for (size_t k = 0; k < I.args.size(); k++) { if (I.args[k] <= -1000) inv->set_arg(k, Imm(int64_t(-1000 - I.args[k]))); else inv->set_arg(k, G(I.args[k])); }
+        for (size_t k = 0; k < I.args.size(); k++) { if (I.args[k] == -999) inv->set_arg(k, Imm(I.imm)); else if (I.args[k] <= -1000) inv->set_arg(k, Imm(int64_t(-1000 - I.args[k]))); else inv->set_arg(k, G(I.args[k])); }
         if (a >= 0) inv->set_ret(0, G(a));
         break;
       }
@@ -913,7 +914,7 @@ struct EmitA64 {
         InvokeNode* inv = nullptr;
         E(cc.invoke(Out(inv), t, sig));
         if (!inv) break;
-        for (size_t k = 0; k < I.args.size(); k++) { if (I.args[k] <= -1000) inv->set_arg(k, Imm(int64_t(-1000 - I.args[k]))); else inv->set_arg(k, G(I.args[k])); }
+        for (size_t k = 0; k < I.args.size(); k++) { if (I.args[k] == -999) inv->set_arg(k, Imm(I.imm)); else if (I.args[k] <= -1000) inv->set_arg(k, Imm(int64_t(-1000 - I.args[k]))); else inv->set_arg(k, G(I.args[k])); }
         if (a >= 0) inv->set_ret(0, G(a));
         break;
       }
@@ -1294,6 +1295,8 @@ void PB::slot(int s) {
 static bool shape_uses_sel(int sh) { return sh == SH_TWOJT || sh == SH_DIAMOND || sh == SH_IRREDUCIBLE || sh == SH_JT3 || sh == SH_JT2; }
 static bool shape_uses_cnt(int sh) { return sh == SH_TWOJT || sh == SH_SWAPLOOP || sh == SH_LOOPLOCAL_E || sh == SH_LOOPLOCAL_L || sh == SH_LOOP || sh == SH_NESTED || sh == SH_LOOPCOND || sh == SH_IRREDUCIBLE || sh == SH_CALLLOOP; }
 
+static const int64_t kMarshalImm[9] = {1, -1, 0x7FFFFFFFll, 0x80000000ll, 0xFFFFFFFFll, 0x100000000ll, 0x1122334455667788ll, int64_t(0xFFFFFFFF00000001ull), INT64_MIN};
+
 static void call(PB& b, int fn, int ret) {
   // AArch64 calls go through a register: 8 register arguments + the target need 9 allocatable registers
   if (b.d.arch == 2 && b.d.K && b.d.K < 9 && fn == 8) fn = 2;
@@ -1457,7 +1460,19 @@ static bool build_prog(const Desc& d, PB& b) {
       static const int kP[] = {-32, 32, -64, 64};
       static const int64_t kOff[] = {48, 48, 40, 40, 56, 56, 24};          // input qwords whose low bytes are negative / positive over the data tuples
       int ti = d.x / 100, pi = (d.x / 10) % 10, pos = d.x % 10;
-      if (ti < 0 || ti > 6 || pi < 0 || pi > 3 || (pos != 1 && pos != 4 && pos != 7 && pos != 9)) return false;
+      if (ti < 0 || ti > 15 || pi < 0 || pi > 3 || (pos != 1 && pos != 4 && pos != 7 && pos != 9)) return false;
+      if (ti >= 7) {
+        // an IMMEDIATE argument (source "types" 7..15): the callee must see the value converted to the parameter's type
+        int r = b.tmp("r");
+        b.slot(0);
+        Ins& ci = b.I(O_CALL, r); ci.fn = 10; ci.imm = kMarshalImm[ti - 7];
+        p.call10_ptype.assign(10, 64); p.call10_mask.assign(10, ~0ull);
+        int pbits = kP[pi] < 0 ? -kP[pi] : kP[pi];
+        for (int k = 0; k < 10; k++) { if (k == pos) { ci.args.push_back(-999); p.call10_ptype[size_t(k)] = kP[pi]; p.call10_mask[size_t(k)] = bits_mask(pbits); } else if (k == 5) ci.args.push_back(-1000 - 77); else ci.args.push_back(b.dv[size_t(k) % b.dv.size()]); }
+        b.slot(1);
+        b.extra.push_back(r);
+        break;
+      }
       Kind tk = kT[ti]; if (gp_bits(tk) > (kP[pi] < 0 ? -kP[pi] : kP[pi])) return false;
       int tv = p.newval(tk, "m" + std::to_string(p.kinds.size())), r = b.tmp("r");
       b.I(O_LOAD, tv, -1, -1, kOff[ti], gp_bits(tk) / 8);
@@ -1625,6 +1640,7 @@ static void run_one(const Desc& d, bool sample) {
   if (d.shape == SH_MARSHAL) {
     static const char* const tn[] = {"int8", "uint8", "int16", "uint16", "int32", "uint32", "int64"}; static const char* const pn[] = {"int32", "uint32", "int64", "uint64"};
     int ti = d.x / 100, pi = (d.x / 10) % 10, pos = d.x % 10;
+    if (ti >= 7 && ti < 16 && pi >= 0 && pi < 4) { char hb[32]; snprintf(hb, sizeof hb, "imm%llx", (unsigned long long)kMarshalImm[ti - 7]); ci.ops = std::string(hb) + ">" + pn[pi] + (pos < 6 ? "@reg" : "@stack") + (ci.ops == "-" ? "" : "+" + ci.ops); }
     if (ti >= 0 && ti < 7 && pi >= 0 && pi < 4) ci.ops = std::string(tn[ti]) + ">" + pn[pi] + (pos < 6 ? "@reg" : "@stack") + (ci.ops == "-" ? "" : "+" + ci.ops);
   }
   ci.replay = "harness=c05_ra\n" + desc_str(d) + "\n";
@@ -1832,13 +1848,13 @@ int main(int argc, char** argv) {
             "x86-32 (simulated) K in {2,3,4} and full file (8, 12 values); AArch64 (simulated) K in {3,4} and full file (20, 28, 36 values); "
             "k=2 slots (two different slots, or one slot filled twice in both orders): x64, K=3, total pressure 4, 6 args, GP alphabet, operand patterns {first-second-last, second-last-first, same-twice}";
   }
-  enumerate(cfg1, 1, all_shapes);
+  // the small dedicated shapes run first, so that a run capped by the deadline (loaded machine) still covers them
   {
     // argument marshalling at call sites: every (source register type) x (parameter type at least as wide) x (register / stack position)
     std::vector<Config> mc;
-    for (int ti = 0; ti < 7; ti++) for (int pi = 0; pi < 4; pi++) for (int pos : {1, 7, 4, 9}) {
+    for (int ti = 0; ti < 16; ti++) for (int pi = 0; pi < 4; pi++) for (int pos : {1, 7, 4, 9}) {
       if (!c.thorough() && (pos == 4 || pos == 9)) continue;
-      static const int tb[] = {8, 8, 16, 16, 32, 32, 64}; static const int pb[] = {32, 32, 64, 64};
+      static const int tb[] = {8, 8, 16, 16, 32, 32, 64, 0, 0, 0, 0, 0, 0, 0, 0, 0}; static const int pb[] = {32, 32, 64, 64};
       if (tb[ti] > pb[pi]) continue;
       for (auto kn : {std::make_pair(3, 3), std::make_pair(0, 20)}) { Config cf{kn.first, kn.second, 6, 0}; cf.x = ti * 100 + pi * 10 + pos; cf.no_fills = !c.thorough(); mc.push_back(cf); }
     }
@@ -1865,6 +1881,7 @@ int main(int argc, char** argv) {
     }
     if (!g_stop) enumerate(tj, 1, {SH_TWOJT});
   }
+  if (!g_stop) enumerate(cfg1, 1, all_shapes);
   long long n1 = c.n("evaluations");
   if (!cfg2.empty() && !g_stop) enumerate(cfg2, 2, all_shapes, 0x0B);
   if (g_dry) { for (auto& kv : g_dry_counts) printf("%8lld  %s\n", kv.second, kv.first.c_str()); printf("programs in this tier: %lld\n", g_idx); return 0; }
